@@ -45,14 +45,20 @@ _rvlog.setLevel(logging.WARNING)
 
 
 def raised_in_rv(exc):
-    """True iff the innermost frame of the exception's traceback is library code (so the
-    exception is the system under test's reaction, not a harness bug)."""
+    """True iff the exception is the library's reaction rather than a harness bug: walking the
+    traceback from the innermost frame outwards, the first frame that belongs either to the
+    library under test or to the harness belongs to the library (frames of the standard
+    library or of third-party packages called from there do not count)."""
     tb = exc.__traceback__
-    last = None
+    frames = []
     while tb is not None:
-        last = tb
+        frames.append(os.path.realpath(tb.tb_frame.f_code.co_filename))
         tb = tb.tb_next
-    if last is None:
-        return False
-    fn = os.path.realpath(last.tb_frame.f_code.co_filename)
-    return fn.startswith(os.path.realpath(RV_SRC))
+    rv_root = os.path.realpath(RV_SRC)
+    harness_root = os.path.dirname(os.path.realpath(__file__))
+    for fn in reversed(frames):
+        if fn.startswith(rv_root):
+            return True
+        if fn.startswith(harness_root):
+            return False
+    return False
